@@ -174,7 +174,8 @@ def execute(case, scratch):
                                           "detail": {"file": rel, "got": got_used.get(rel), "expected": expu}}}
         nontrivial = bool(removed or pr.get("directory_not_root") or pr.get("relative_directory")
                           or pr.get("dotdot_in_file") or pr["cwd_not_root"])
-        return {"verdict": "ok", "stats": stats, "nontrivial": nontrivial}
+        return {"verdict": "ok", "stats": stats, "nontrivial": nontrivial,
+                "obs_digest": core.jdigest([obs["attr"], obs["setmap"], sorted(obs["events"]), obs["db"]])}
     finally:
         W.cleanup(top)
 
